@@ -382,9 +382,13 @@ impl<'buf> ModuleReader<'buf> {
             if header.p_type != elf::program_header::PT_NOTE {
                 continue;
             }
-            if let Ok(Some(result)) =
-                self.find_build_id_note(header.p_offset, header.p_filesz, header.p_align)
-            {
+            // In process memory the segment is found at its virtual address.
+            let (offset, size) = if self.module_memory.is_process_memory() {
+                (header.p_vaddr, header.p_memsz)
+            } else {
+                (header.p_offset, header.p_filesz)
+            };
+            if let Ok(Some(result)) = self.find_build_id_note(offset, size, header.p_align) {
                 return Ok(result);
             }
         }
